@@ -21,6 +21,9 @@ Descriptor of an operand (a, b) or of the result (c):
          "index"  element k at [idx[k] .. idx[k]+W-1], idx = the array parameter named in "param"
          "const"  one element broadcast to all lanes: ext -> pointer/reference to 3 coefficients, base -> by value
   pass : "ref" when an ext constant is passed as Goldilocks3::Element& (otherwise a pointer)
+  pbits: 32 when the stride parameter is a uint32_t
+Alias modes of a row (alias_modes, mirrors Layout16!Aliasable): the result may be the SAME object as extension operand x when
+both are planar register triples (regs / regs3) or both are interleaved arrays (contig / stride / index) addressed identically.
 aux: "none" | "const" (pointer to the three precomputed sums b0+b1, b0+b2, b1+b2 of a constant b) |
      "regs3" (three registers holding these sums per lane)."""
 import json, os, re, sys, argparse
@@ -68,7 +71,7 @@ def parse_param(p):
     elif t == 'Element &':
         cls = 'REF3'
     elif t in ('uint64_t', 'uint32_t'):
-        cls = 'UARR' if arr else 'U'
+        cls = 'UARR' if arr else ('U32' if t == 'uint32_t' else 'U')
     else:
         raise ValueError('unclassified parameter: ' + p)
     return cls, name
@@ -140,7 +143,7 @@ def draft_row(d):
             aux = 'const'; call.append('{aux}'); i += 1
         elif cls == 'M' and nm.startswith('aux0'):
             aux = 'regs3'; call.append('{aux}'); i += 3
-        elif cls in ('U', 'UARR'):
+        elif cls in ('U', 'U32', 'UARR'):
             if nm in ('stride_a', 'offset_a', 'stride0'):
                 X = 'a'
             elif nm in ('stride_b', 'offset_b', 'stride1'):
@@ -152,9 +155,11 @@ def draft_row(d):
             else:
                 raise ValueError('stride parameter? ' + nm)
             assert desc[X]['kind'] == 'contig', (name, X, desc[X])
-            desc[X]['kind'] = 'stride' if cls == 'U' else 'index'
+            desc[X]['kind'] = 'index' if cls == 'UARR' else 'stride'
             desc[X]['param'] = nm
-            call.append('{s%s}' % X if cls == 'U' else '{i%s}' % X)
+            if cls == 'U32':
+                desc[X]['pbits'] = 32              # the stride parameter is a uint32_t: strides >= 2^32 cannot be passed
+            call.append('{i%s}' % X if cls == 'UARR' else '{s%s}' % X)
             i += 1
         else:
             raise ValueError('trailing? %s in %s' % (pp[i], name))
@@ -181,6 +186,53 @@ def load():
 
 def family(r):
     return '%s/%s' % (r['op'], 'batch' if r['name'].endswith('_batch') else ('avx512' if r['L'] == 8 else 'avx'))
+
+
+def lax_sig(sig):
+    """signature up to cv / reference qualifiers"""
+    out = []
+    for p in sig.split(', '):
+        p = re.sub(r'\bconst\b', '', p).replace('&', ' ')
+        out.append(re.sub(r'\s+', ' ', p).strip().replace(' *', '*').replace('* ', '*'))
+    return ', '.join(out)
+
+
+def match_rows(repo):
+    """-> (live rows, lax rows {id: current signature}, missing_in_table [(name, sig)], gone row ids)
+    A row whose exact signature is gone but whose signature up to const / & qualifiers is still declared (and is not the
+    exact signature of another row) stays live; its call site then uses plain overload resolution."""
+    decl = declarations(repo)
+    rows = load()
+    dset = {(d['name'], d['sig']) for d in decl}
+    tset = {(r['name'], r['sig']) for r in rows}
+    spare = [d for d in decl if (d['name'], d['sig']) not in tset]
+    live, lax, gone = [], {}, []
+    for r in rows:
+        if (r['name'], r['sig']) in dset:
+            live.append(r)
+            continue
+        cand = [d for d in spare if d['name'] == r['name'] and lax_sig(d['sig']) == lax_sig(r['sig'])]
+        if len(cand) == 1:
+            spare.remove(cand[0])
+            lax[r['id']] = cand[0]['sig']
+            live.append(r)
+        else:
+            gone.append(r['id'])
+    return live, lax, sorted((d['name'], d['sig']) for d in spare), gone
+
+
+REGK = ('regs', 'regs3')
+ARRK = ('contig', 'stride', 'index')
+
+
+def alias_modes(r):
+    """operands the result may be aliased to (mirrors Layout16!Aliasable)"""
+    out = []
+    for X in 'ab':
+        d = r[X]
+        if d['elem'] == 'ext' and ((r['c']['kind'] in REGK and d['kind'] in REGK) or (r['c']['kind'] in ARRK and d['kind'] in ARRK)):
+            out.append(X)
+    return out
 
 
 def check_against(repo):
@@ -244,10 +296,15 @@ def cpp_fnptr(r):
     return 'static_cast<void (*)(%s)>(&Goldilocks3::%s)' % (', '.join(cpp_ptype(p) for p in r['sig'].split(', ')), r['name'])
 
 
-def cpp_call(r):
+def cpp_call(r, alias=None, lax=False):
+    """alias = 'a' / 'b' (register rows): the operand is the SAME register triple as the result (x.C)"""
     L = r['L']
     v = 'v8' if L == 8 else 'v4'
-    sub = {'{a}': cpp_arg('a', r['a'], L), '{b}': cpp_arg('b', r['b'], L), '{c}': cpp_arg('c', r['c'], L),
+    da, db = dict(r['a']), dict(r['b'])
+    args = {'a': cpp_arg('a', da, L), 'b': cpp_arg('b', db, L)}
+    if alias:
+        args[alias] = cpp_arg('c', r[alias], L)       # the operand's own passing style (regs / regs3), the result's registers
+    sub = {'{a}': args['a'], '{b}': args['b'], '{c}': cpp_arg('c', r['c'], L),
            '{sa}': 'x.sa', '{sb}': 'x.sb', '{sc}': 'x.sc', '{ia}': 'x.ia', '{ib}': 'x.ib', '{ic}': 'x.ic',
            '{aux}': 'x.px' if r['aux'] == 'const' else 'x.X.%s[0], x.X.%s[1], x.X.%s[2]' % (v, v, v)}
     s = r['call']
@@ -255,6 +312,8 @@ def cpp_call(r):
         s = s.replace(k, val)
     assert '{' not in s, s
     assert s.startswith('Goldilocks3::%s(' % r['name'])
+    if lax:
+        return s
     return cpp_fnptr(r) + s[len('Goldilocks3::' + r['name']):]
 
 
@@ -262,7 +321,15 @@ def cpp_desc(d):
     return '{%d, l16::%s}' % (3 if d['elem'] == 'ext' else 1, KINDS[d['kind']])
 
 
-def gen_cpp(rows, variant, outdir, nparts):
+def cpp_site(fn, r, alias, laxrow):
+    """one call site; pinned to the exact declared signature unless the row is lax or the unit is built with -DLAX_SIG"""
+    if laxrow:
+        return 'static void %s(l16::Ctx &x) { %s; }' % (fn, cpp_call(r, alias, True))
+    return '#ifdef LAX_SIG\nstatic void %s(l16::Ctx &x) { %s; }\n#else\nstatic void %s(l16::Ctx &x) { %s; }\n#endif' % (
+        fn, cpp_call(r, alias, True), fn, cpp_call(r, alias, False))
+
+
+def gen_cpp(rows, variant, outdir, nparts, lax=()):
     rows = [r for r in rows if r['variant'] == variant]
     os.makedirs(outdir, exist_ok=True)
     files = []
@@ -272,11 +339,18 @@ def gen_cpp(rows, variant, outdir, nparts):
              '#include "rt16.hpp"']
         for j, r in enumerate(part):
             o.append('// %s  (header line %d)  %s' % (r['id'], r['line'], r['sig']))
-            o.append('static void call_%d_%d(l16::Ctx &x) { %s; }' % (p, j, cpp_call(r)))
+            o.append(cpp_site('call_%d_%d' % (p, j), r, None, r['id'] in lax))
+            for X in alias_modes(r):
+                if r['c']['kind'] in REGK:
+                    o.append(cpp_site('call_%d_%d_%s' % (p, j, X), r, X, r['id'] in lax))
         o.append('void l16_register_%d(std::vector<l16::Row> &t)\n{' % p)
         for j, r in enumerate(part):
-            o.append('    t.push_back(l16::Row{"%s", l16::OP_%s, %d, %s, %s, %s, l16::AUX_%s, call_%d_%d});' %
-                     (r['id'], r['op'].upper(), r['L'], cpp_desc(r['a']), cpp_desc(r['b']), cpp_desc(r['c']), r['aux'].upper(), p, j))
+            al = alias_modes(r)
+            regal = r['c']['kind'] in REGK
+            o.append('    t.push_back(l16::Row{"%s", l16::OP_%s, %d, %s, %s, %s, l16::AUX_%s, call_%d_%d, %s, %s, %s, %s});' %
+                     (r['id'], r['op'].upper(), r['L'], cpp_desc(r['a']), cpp_desc(r['b']), cpp_desc(r['c']), r['aux'].upper(), p, j,
+                      'call_%d_%d_a' % (p, j) if 'a' in al and regal else 'nullptr', 'call_%d_%d_b' % (p, j) if 'b' in al and regal else 'nullptr',
+                      'true' if 'a' in al else 'false', 'true' if 'b' in al else 'false'))
         o.append('}')
         f = os.path.join(outdir, 'gen16_%s_%d.cpp' % (variant, p))
         open(f, 'w').write('\n'.join(o) + '\n')
@@ -320,7 +394,7 @@ def main():
             print('%-28s L%d %-6s line %4d  c=%s/%s a=%s/%s%s b=%s/%s%s aux=%s' % (
                 r['id'], r['L'], r['op'], r['line'], r['c']['elem'], r['c']['kind'], r['a']['elem'], r['a']['kind'],
                 '(' + r['a'].get('param', '') + ')' if r['a'].get('param') else '', r['b']['elem'], r['b']['kind'],
-                '(' + r['b'].get('param', '') + ')' if r['b'].get('param') else '', r['aux']))
+                '(' + r['b'].get('param', '') + ')' if r['b'].get('param') else '', r['aux'] + ' alias=' + ','.join(alias_modes(r))))
 
 
 if __name__ == '__main__':
